@@ -162,4 +162,8 @@ def main_benign(jobs, args, props):
 
 
 if __name__ == '__main__':
-    main()
+    try:
+        main()
+    finally:
+        if ENV.get('VERIF_CACHE_DIR', '').startswith(tempfile.gettempdir()):
+            shutil.rmtree(ENV['VERIF_CACHE_DIR'], ignore_errors=True)
